@@ -306,6 +306,46 @@ func debugPortDiff(repo string) {
 		fmt.Println(err)
 		return
 	}
+	if sref, err := w.loadRef("go/scanner"); err == nil {
+		w.AllFuncDecls(w.Parser, func(fd *ast.FuncDecl) {
+			name := funcName(fd)
+			if !strings.HasPrefix(name, "Scanner.") && recvTypeName(fd) != "" {
+				return
+			}
+			rf := w.FuncDecl(sref, name)
+			if rf == nil {
+				return
+			}
+			a, b := flattenBody(w.Parser, fd, nil), flattenBody(sref, rf, nil)
+			oa, ob := lcsDiff(a, b)
+			fmt.Printf("== scanner %s: %d/%d statements, only-tengo %d, only-ref %d\n", name, len(a), len(b), len(oa), len(ob))
+			for _, s := range oa {
+				fmt.Printf("   T %.150s   [%s]\n", w.Src(s.Node), w.SitePos(s.Node.Pos()))
+			}
+			for _, s := range ob {
+				fmt.Printf("   R %.160s\n", s.Text)
+			}
+		})
+	}
+	if jref, err := w.loadRef("encoding/json"); err == nil {
+		w.AllFuncDecls(w.JSON, func(fd *ast.FuncDecl) {
+			name := funcName(fd)
+			rf := w.FuncDecl(jref, name)
+			if rf == nil {
+				fmt.Printf("== json %s: no reference function\n", name)
+				return
+			}
+			a, b := flattenBody(w.JSON, fd, nil), flattenBody(jref, rf, nil)
+			oa, ob := lcsDiff(a, b)
+			fmt.Printf("== json %s: %d/%d statements, only-tengo %d, only-ref %d\n", name, len(a), len(b), len(oa), len(ob))
+			for _, s := range oa {
+				fmt.Printf("   T %.150s   [%s]\n", w.Src(s.Node), w.SitePos(s.Node.Pos()))
+			}
+			for _, s := range ob {
+				fmt.Printf("   R %.160s\n", s.Text)
+			}
+		})
+	}
 	ref, err := w.loadRef("fmt")
 	if err != nil {
 		fmt.Println(err)
